@@ -211,3 +211,13 @@ Definition frame_shapeb (f : frame) : bool :=
   nodupb (map fe_id (all_frame_events f)) &&
   forallb (fun fe => (0 <=? fe_id fe) && (0 <=? fe_round fe)) (all_frame_events f) &&
   sorted_ltb (map fst (f_peersets f)).
+
+(* the further premises of the after-reset theorems (C13_after_reset_rr_increasing, C13_after_reset_admission)
+   that can be read off the received data, evaluated by the runner on every fast-forward as well:
+   the anchor's round-received is non-negative, no event of the frame records a round above it,
+   and the shipped bodies have non-negative indexes *)
+Definition after_reset_premisesb (b : block) (f : frame) (cores : list event) : bool :=
+  (0 <=? b_rr b) &&
+  forallb (fun fe => fe_round fe <=? b_rr b) (all_frame_events f) &&
+  forallb (fun fe => match core_of cores (fe_id fe) with Some e => 0 <=? e_index e | None => true end)
+          (all_frame_events f).
